@@ -573,3 +573,56 @@ func NewChain(cfg *params.ChainConfig) *core.BlockChain {
 	}
 	return bc
 }
+
+// ------------------------------------------------------------------ content dump (for the composed model, request `txi`)
+
+// codeEnc / storEnc are Tx/Compose.v dg_c / sg_c: 0 when empty, else the number whose big-endian bytes are 0x01 || content.
+func codeEnc(code []byte) string {
+	if len(code) == 0 {
+		return "0x0"
+	}
+	return HexBig(new(big.Int).SetBytes(append([]byte{1}, code...)))
+}
+
+func storEnc(sdb *state.StateDB, a common.Address) string {
+	type kv struct{ k, v common.Hash }
+	var l []kv
+	seen := map[common.Hash]bool{}
+	sdb.ForEachStorage(a, func(k, v common.Hash) bool {
+		if !seen[k] {
+			seen[k] = true
+			if cur := sdb.GetState(a, k); cur != (common.Hash{}) {
+				l = append(l, kv{k, cur})
+			}
+		}
+		return true
+	})
+	if len(l) == 0 {
+		return "0x0"
+	}
+	sort.Slice(l, func(i, j int) bool { return bytes.Compare(l[i].k[:], l[j].k[:]) < 0 })
+	b := []byte{1}
+	for _, e := range l {
+		b = append(b, e.k[:]...)
+		b = append(b, e.v[:]...)
+	}
+	return HexBig(new(big.Int).SetBytes(b))
+}
+
+// DumpContent renders addr:balance:nonce:code:storage with code and storage as content encodings.
+// withEmpty: list every existing account (pre-states); otherwise only accounts that hold something (post-states).
+func DumpContent(sdb *state.StateDB, u Universe, withEmpty bool) string {
+	var parts []string
+	for _, a := range u.Sorted() {
+		s := SnapOf(sdb, a)
+		ce, se := codeEnc(sdb.GetCode(a)), storEnc(sdb, a)
+		empty := s.Bal.Sign() == 0 && s.Nonce == 0 && ce == "0x0" && se == "0x0"
+		if (withEmpty && s.Exists) || !empty {
+			parts = append(parts, HexAddr(a)+":"+HexBig(s.Bal)+":"+HexU(s.Nonce)+":"+ce+":"+se)
+		}
+	}
+	if len(parts) == 0 {
+		return "-"
+	}
+	return strings.Join(parts, ",")
+}
